@@ -108,7 +108,7 @@ def one_round(rng, nthreads, nreq):
     plans = []
     for t in range(nthreads):
         r = random.Random(rng.random())
-        plans.append([(r.randrange(nengines), r.choice(["direct", "leaf", "mat"]), r.choice(prefixes)) for _ in range(nreq)])
+        plans.append([(r.randrange(nengines), r.choice(["direct", "leaf", "mat", "makeleaf"]), r.choice(prefixes)) for _ in range(nreq)])
     results = [[] for _ in range(nthreads)]
     errors = []
     barrier = threading.Barrier(nthreads)
@@ -120,6 +120,17 @@ def one_round(rng, nthreads, nreq):
                 e = engines[ei]
                 if route == "direct":
                     name = e.get_relation_name(prefix)
+                elif route == "makeleaf":
+                    # the engines' own convenience constructors, with empty and non-empty payloads
+                    if isinstance(e, iteration.Engine):
+                        rows = [] if (len(results[t]) % 3 == 0) else [{a: len(results[t])}]
+                        name = e.make_leaf({a}, iteration.RowSequence(rows), name_prefix=prefix).name
+                    else:
+                        sel = e.make_leaf({a}, object(), name_prefix=prefix)
+                        node = sel
+                        while not isinstance(node, R.LeafRelation):
+                            node = node.target
+                        name = node.name
                 elif route == "leaf":
                     name = R.LeafRelation(e, frozenset({a}), iteration.RowSequence([]), name="", name_prefix=prefix).name
                 else:
